@@ -127,3 +127,177 @@ pub fn diff_events(real: &[Ev], model: &[Ev]) -> Option<String> {
         Some(format!("parser did not report event #{n}: {:?}", model[n]))
     }
 }
+
+// ------------------------------------------------------------- strippers
+
+use std::io::Write as _;
+
+/// (offset, len) of `piece` inside `input`, or an error when the piece does
+/// not lie inside the input.
+pub fn locate(input: &[u8], piece: &[u8]) -> Result<(usize, usize), String> {
+    let base = input.as_ptr() as usize;
+    let p = piece.as_ptr() as usize;
+    if p < base || p + piece.len() > base + input.len() {
+        return Err(format!(
+            "piece {:?} does not lie inside the input",
+            vcore::rt::esc(piece)
+        ));
+    }
+    Ok((p - base, piece.len()))
+}
+
+/// Checks that the pieces are in order, non-overlapping sub-slices of the
+/// input and returns their concatenation.
+pub fn check_pieces(input: &[u8], pieces: &[&[u8]], what: &str) -> Result<Vec<u8>, String> {
+    let mut end = 0usize;
+    let mut out = Vec::new();
+    for p in pieces {
+        if p.is_empty() {
+            return Err(format!("{what}: yielded an empty piece"));
+        }
+        let (off, len) = locate(input, p).map_err(|e| format!("{what}: {e}"))?;
+        if off < end {
+            return Err(format!(
+                "{what}: piece at offset {off} overlaps or precedes the previous piece ending at {end}"
+            ));
+        }
+        end = off + len;
+        out.extend_from_slice(p);
+    }
+    Ok(out)
+}
+
+pub fn forbidden_byte(out: &[u8]) -> Option<u8> {
+    out.iter()
+        .copied()
+        .find(|b| matches!(b, 0x00..=0x08 | 0x0b | 0x0e..=0x1f | 0x7f))
+}
+
+pub fn strip_bytes_pieces(input: &[u8]) -> Result<Vec<u8>, String> {
+    let pieces: Vec<&[u8]> = anstream::adapter::strip_bytes(input).collect();
+    check_pieces(input, &pieces, "strip_bytes")
+}
+
+pub fn strip_bytes_vec(input: &[u8]) -> Vec<u8> {
+    anstream::adapter::strip_bytes(input).into_vec()
+}
+
+pub fn strip_bytes_incremental_one(input: &[u8]) -> Result<Vec<u8>, String> {
+    let mut s = anstream::adapter::StripBytes::new();
+    let pieces: Vec<&[u8]> = s.strip_next(input).collect();
+    check_pieces(input, &pieces, "StripBytes::strip_next")
+}
+
+pub fn strip_stream_write_all(input: &[u8]) -> Result<Vec<u8>, String> {
+    let mut s = anstream::StripStream::new(Vec::new());
+    s.write_all(input).map_err(|e| format!("StripStream<Vec>::write_all failed: {e}"))?;
+    Ok(s.into_inner())
+}
+
+pub fn auto_never_write_all(input: &[u8]) -> Result<Vec<u8>, String> {
+    let mut s = anstream::AutoStream::never(Vec::new());
+    s.write_all(input).map_err(|e| format!("AutoStream::never(Vec)::write_all failed: {e}"))?;
+    Ok(s.into_inner())
+}
+
+fn str_pieces_checked(input: &str, pieces: &[&str], what: &str) -> Result<Vec<u8>, String> {
+    let raw: Vec<&[u8]> = pieces.iter().map(|p| p.as_bytes()).collect();
+    for p in &raw {
+        if !vcore::vt::is_valid_utf8(p) {
+            return Err(format!(
+                "{what}: returned a &str that is not valid UTF-8: {}",
+                vcore::rt::esc(p)
+            ));
+        }
+    }
+    check_pieces(input.as_bytes(), &raw, what)
+}
+
+pub fn strip_str_pieces(input: &str) -> Result<Vec<u8>, String> {
+    let pieces: Vec<&str> = anstream::adapter::strip_str(input).collect();
+    str_pieces_checked(input, &pieces, "strip_str")
+}
+
+pub fn strip_str_to_string(input: &str) -> Vec<u8> {
+    anstream::adapter::strip_str(input).to_string().into_bytes()
+}
+
+pub fn strip_str_display(input: &str) -> Vec<u8> {
+    format!("{}", anstream::adapter::strip_str(input)).into_bytes()
+}
+
+pub fn strip_str_incremental_one(input: &str) -> Result<Vec<u8>, String> {
+    let mut s = anstream::adapter::StripStr::new();
+    let pieces: Vec<&str> = s.strip_next(input).collect();
+    str_pieces_checked(input, &pieces, "StripStr::strip_next")
+}
+
+// ------------------------------------------------- incremental interfaces
+
+pub fn strip_bytes_chunked(chunks: &[&[u8]]) -> Result<Vec<u8>, String> {
+    let mut s = anstream::adapter::StripBytes::new();
+    let mut out = Vec::new();
+    for c in chunks {
+        let pieces: Vec<&[u8]> = s.strip_next(c).collect();
+        out.extend(check_pieces(c, &pieces, "StripBytes::strip_next")?);
+    }
+    Ok(out)
+}
+
+pub fn strip_str_chunked(chunks: &[&str]) -> Result<Vec<u8>, String> {
+    let mut s = anstream::adapter::StripStr::new();
+    let mut out = Vec::new();
+    for c in chunks {
+        let pieces: Vec<&str> = s.strip_next(c).collect();
+        out.extend(str_pieces_checked(c, &pieces, "StripStr::strip_next")?);
+    }
+    Ok(out)
+}
+
+pub fn strip_stream_write_all_chunked(chunks: &[&[u8]]) -> Result<Vec<u8>, String> {
+    let mut s = anstream::StripStream::new(Vec::new());
+    for c in chunks {
+        s.write_all(c).map_err(|e| format!("write_all failed: {e}"))?;
+    }
+    Ok(s.into_inner())
+}
+
+pub fn strip_stream_write_chunked(chunks: &[&[u8]]) -> Result<Vec<u8>, String> {
+    let mut s = anstream::StripStream::new(Vec::new());
+    for c in chunks {
+        let mut rest: &[u8] = c;
+        while !rest.is_empty() {
+            let n = s.write(rest).map_err(|e| format!("write failed: {e}"))?;
+            if n == 0 || n > rest.len() {
+                return Err(format!("write returned {n} for a buffer of {}", rest.len()));
+            }
+            rest = &rest[n..];
+        }
+    }
+    Ok(s.into_inner())
+}
+
+pub type StyledChars = Vec<(anstyle::Style, char)>;
+
+pub fn extract_chunked(chunks: &[&[u8]]) -> StyledChars {
+    let mut w = anstream::adapter::WinconBytes::new();
+    let mut out = vec![];
+    for c in chunks {
+        for (style, text) in w.extract_next(c) {
+            for ch in text.chars() {
+                out.push((style, ch));
+            }
+        }
+    }
+    out
+}
+
+/// styled runs as yielded (for checks that look at run structure)
+pub fn extract_runs(chunks: &[&[u8]]) -> Vec<(anstyle::Style, String)> {
+    let mut w = anstream::adapter::WinconBytes::new();
+    let mut out = vec![];
+    for c in chunks {
+        out.extend(w.extract_next(c));
+    }
+    out
+}
